@@ -1,5 +1,6 @@
 import BindgenModel.Model.Util
 import BindgenModel.Model.BitfieldUnit
+import BindgenModel.Model.BitfieldAlloc
 /-! Line protocol for the bit-field unit model.
 
 `bf <entry> <mode> <off> <w> <store-hex> [<val-hex>]` with
@@ -16,6 +17,16 @@ def handle (toks : List String) : String :=
     | some off, some w, some s =>
       if !(pre s.length off w) then "bad-pre" else
       let panics := mode == "dbg" && dbgPanics off w
+      if mode == "be" then
+        -- big-endian branches (the host word is 64 bits, so the const forms coincide)
+        if entry.startsWith "get" || entry.startsWith "raw_get" then
+          hexNat 16 (getBE s off w).toNat ++ " " ++ hexNat 16 (specGetBE s off w).toNat
+        else match rest with
+          | [v] => match parseHexNat v with
+            | some v => hexBytes (setBE s off w (BitVec.ofNat 64 v)) ++ " " ++ hexBytes (specSetBE s off w (BitVec.ofNat 64 v))
+            | none => "bad-op"
+          | _ => "bad-op"
+      else
       if entry == "get" || entry == "raw_get" then
         (if panics then "panic" else hexNat 16 (get s off w).toNat) ++ " " ++ hexNat 16 (specGet s off w).toNat
       else if entry == "get_const" || entry == "raw_get_const" then
@@ -32,6 +43,24 @@ def handle (toks : List String) : String :=
           | none => "bad-op"
         | _ => "bad-op"
     | _, _, _ => "bad-op"
+  | _ => "bad-op"
+
+/-- `bfalloc <packed:0|1> <w:off:tsize:talign,…>` → `unit=<bytes> offs=<…> overridden=<0|1>` -/
+def handleAlloc (toks : List String) : String :=
+  open BindgenModel.BitfieldAlloc in
+  match toks with
+  | [packed, fields] =>
+    let bfs := (fields.splitOn ",").filterMap fun f =>
+      match f.splitOn ":" with
+      | [w, o, ts, ta] => match w.toNat?, ts.toNat?, ta.toNat? with
+        | some w, some ts, some ta =>
+          if o == "-" then some ({ width := w, off := none, tsize := ts, talign := ta } : RawBf)
+          else o.toNat?.map fun o => ({ width := w, off := some o, tsize := ts, talign := ta } : RawBf)
+        | _, _, _ => none
+      | _ => none
+    let st := allocRun (packed == "1") bfs
+    let offs := ",".intercalate (st.offs.map toString)
+    s!"unit={unitBytes st} offs={offs} overridden={if bfs.any (adjusts (packed == "1")) then 1 else 0}"
   | _ => "bad-op"
 
 end BindgenModel.Driver.C03
